@@ -558,9 +558,23 @@ def diff_streams(ops, impl, model, ignore_prefixes=("conf ",)):
             continue
         if a == "bad-op" and b != "bad-op" and i < len(impl):
             continue  # accessor not wired in the harness table (counted by caller)
+        if op.startswith("q str ") or (op.startswith("q at ") and op.split()[4].endswith("names")) or (op.startswith("q sub ") and op.split()[-1].endswith(("name", "comment"))):
+            # the query interface hands strings out as `const char *`: what lies behind a zero byte cannot be observed through it
+            a, b = _cstr_hex(a), _cstr_hex(b)
+        if op.startswith("lookup ") and _cstr_hex(op.split()[-1]) != op.split()[-1]:
+            continue  # a key with a zero byte cannot be passed through the `const char *` interface
         if a != b:
             diffs.append((i, op, a, b))
     return diffs
+
+
+def _cstr_hex(x):
+    if x == "-" or len(x) % 2 or any(c not in "0123456789abcdef" for c in x):
+        return x
+    for k in range(0, len(x), 2):
+        if x[k:k + 2] == "00":
+            return x[:k] or "-"
+    return x
 
 
 def build_preload(name):
